@@ -40,7 +40,14 @@ VCds(ev) ==
     Ok(IsVal(ev[7]) /\ ev[7][2] = n, "num-codons"),
     Ok(IsVal(ev[8]) /\ ev[8][2] = seq, "cds-is-concat"),
     Ok(IsVal(ev[8]) /\ Len(ev[8][2]) % 3 = 0, "len-mod-3"),
-    Ok(IsVal(ev[9]) /\ ev[9][2] = seq, "sequence-after-codons"),
+    \* (asked of an object whose codons were listed first: the sequence is then the concatenation of the codon
+    \* locations' own sequences, and on a layout whose blocks overlap those are re-sorted -- the keyed order finding,
+    \* recognised only when every codon still has its own three residues)
+    IF IsVal(ev[9]) /\ ev[9][2] = seq THEN "ok"
+    ELSE IF SelfOverlap(cds[1]) /\ IsVal(ev[9]) /\ Len(ev[9][2]) = Len(seq)
+            /\ \A k \in 1..(Len(seq) \div 3) : \A ch \in {seq[i] : i \in (3 * k - 2)..(3 * k)} :
+                  Cardinality({i \in (3 * k - 2)..(3 * k) : ev[9][2][i] = ch}) = Cardinality({i \in (3 * k - 2)..(3 * k) : seq[i] = ch})
+         THEN "codons:selfoverlap-order" ELSE "sequence-after-codons",
     FirstBad([k \in DOMAIN ev[10] |->
        LET tr == ev[10][k] truncate == tr[1] table == tr[2] strict == tr[3] o == tr[4]
            m == TranslatedCount(cs, truncate) IN
